@@ -58,6 +58,7 @@ theorem C09_r1 (k : Kind) (mem mbuff stack : Region) (extra : List Region) (fixe
     have := VmL.fixedBufLen_ge d e
     omega
   cases k <;> simp [Interp.init, memOf, VmL.size_fixedPrepare, hne]
+  all_goals (unfold pktRegion; by_cases hm : mem.bytes.size = 0 <;> simp_all)
 
 /-- r10 = top of the 512-byte stack -/
 theorem C09_r10 (k : Kind) (mem mbuff stack : Region) (extra : List Region) (fixedBase : Nat)
@@ -78,10 +79,10 @@ theorem C09_other_regs_zero (k : Kind) (mem mbuff stack : Region) (extra : List 
   simp [hlt]
 
 /-- absolute / indirect packet loads address the packet data: the `mem` region of the memory every kind
-    builds is the caller's packet (the empty slice for no-data VMs) -/
+    builds is the caller's packet, and the empty region at the null address when there is none -/
 theorem C09_packet_region (k : Kind) (mem mbuff stack : Region) (extra : List Region) (fixedBase : Nat)
     (fixedBuf : Bytes) (d e : Nat) :
-    (memOf k mem mbuff fixedBase fixedBuf d e stack extra).mem = (if k = .noData then ⟨1, #[]⟩ else mem) ∧
+    (memOf k mem mbuff fixedBase fixedBuf d e stack extra).mem = (if k = .noData then ⟨0, #[]⟩ else pktRegion mem) ∧
     (memOf k mem mbuff fixedBase fixedBuf d e stack extra).stack = stack := by
   cases k <;> simp [memOf]
 
